@@ -718,6 +718,12 @@ def run(chk: core.Check, direction: str, generators: typing.List[str], trusted: 
 
         # 3. correspondence with the real generated code
         matrix = option_matrix(chk.tier, chk.rng, no_float)
+        if direction == 'des':
+            # fragmented input (audit 3): deserialize() is handed the same bytes cut into several memoryviews; the support module
+            # concatenates them (ZeroExtendingBuffer.__init__, pinned by C14), so the verdict must not depend on the cut.
+            # fragment=1 cuts at EVERY byte; the others give 2-5 fragments for the usual message sizes
+            frs = [1, chk.rng.choice([2, 3, 5])] if chk.tier == 'quick' else [1, 2, 3, 5, 8]
+            matrix = matrix + [('target_py', {'fragment': k}) for k in frs]
         build_targets(prep, matrix, core.REPO)
         stats['unavailable_targets'] = sorted(set(stats['unavailable_targets']) | set(prep.unavailable))
         for lab, logtxt in prep.build_failures:
